@@ -12,6 +12,13 @@ SWEEPS = {
     "C04": {"seed": 1002, "n_quick": 2500, "n_thorough": 25000, "extra": ["--redist", "1"], "kinds": ("redistribution-differs",)},
 }
 
+# The same two experiments on generated small-alphabet fonts (harness/src/flaggen.rs): font k of the fixed seed,
+# 12 texts each; an instance is identified by the font's name flaggen-<seed>-<k>.ttf and the request.
+GEN = {
+    "C03": {"seed": 1001, "cmd": "c03gen", "n_quick": 60000, "n_thorough": 360000, "extra": []},
+    "C04": {"seed": 1002, "cmd": "c04gen", "n_quick": 36000, "n_thorough": 240000, "extra": []},
+}
+
 PREPENDED = {0x0600, 0x0601, 0x0602, 0x0603, 0x0604, 0x0605, 0x06DD, 0x070F, 0x0890, 0x0891, 0x08E2, 0x110BD, 0x110CD}
 BLOCKS = [
     ("arabic_joining_scripts", [(0x0600, 0x08FF), (0xFB50, 0xFDFF), (0xFE70, 0xFEFF), (0x1800, 0x18AF), (0x0840, 0x085F), (0x10AC0, 0x10AFF), (0x10B80, 0x10BAF), (0x1E900, 0x1E95F), (0xA840, 0xA87F)]),
@@ -55,3 +62,40 @@ def known_instances(prop):
     def font(pth):
         return C.REPO + pth[len("/repo"):] if pth.startswith("/repo/") and C.REPO != "/repo" else pth
     return {(font(i["font"]), i["req"], i["kind"]): i["class"] for i in d["instances"]}
+
+
+def gen_key(f):
+    return (os.path.basename(f["font"]), f["req"], f["kind"])
+
+
+def known_gen_instances(prop):
+    path = os.path.join(HERE, "corpus", "%s-known-gen-instances.json" % prop)
+    try:
+        d = json.load(open(path))
+    except OSError:
+        return {}
+    return {(i["font"], i["req"], i["kind"]): i["class"] for i in d["instances"]}
+
+
+def gen_sweep(chk, binp, prop, fails, label):
+    """Runs the generated-font sweep of `prop`; known listed instances become KNOWN-FINDING lines, the rest is appended to fails."""
+    g = GEN[prop]
+    known = known_gen_instances(prop)
+
+    class Fixed:
+        seed = g["seed"]
+    fl, summary, crashed = e2e.run(Fixed, binp, g["cmd"], g["n_thorough"] if chk.tier == "thorough" else g["n_quick"], extra=g["extra"])
+    chk.note(label, summary)
+    chk.add_eval(summary.get("evaluations", 0), summary.get("nontrivial", 0))
+    if crashed:
+        fails.append({"kind": "generated-sweep-crashed", "detail": crashed})
+    per_class = {}
+    for f in fl:
+        cls = known.get(gen_key(f))
+        if cls and chk.is_known(cls):
+            per_class.setdefault(cls, []).append(f)
+        else:
+            fails.append(f)
+    for cls, fs in sorted(per_class.items()):
+        chk.known_finding(cls, "%d listed instance(s) of the generated-font sweep, e.g. font=%s req=[%s]" % (len(fs), os.path.basename(fs[0]["font"]), fs[0]["req"]))
+    return summary
